@@ -1,6 +1,11 @@
 (* Model of proportional.QuotaDistributor.evaluate / _subtract_overaward and
-   LargestRemainder.evaluate (proportional.py L208-388), mirroring the code
-   including the recursive cap branch exactly as written. *)
+   LargestRemainder.evaluate (proportional.py), mirroring the code with the repairs
+   fixes/C02-capbranch.diff (whole quotas are cut at the cap, no cap unless one is given, nothing is
+   redistributed) and fixes/C02-lr-caps.diff (LargestRemainder passes max_seats to the quota stage).
+   The code as written on the pinned tree - the recursive cap branch, entered also through the default cap
+   n_seats, and LargestRemainder calling the quota stage without caps - stays expressible as
+   scan_pinned / qd_eval_pinned / qd_evaluate_pinned / lr_evaluate_pinned, selected by the flag of
+   qd_evaluate_at / lr_evaluate_at (false = pinned), so that its refutations stay theorems. *)
 From Coq Require Import ZArith QArith List Bool.
 From VL Require Import Prelude.PyDict Prelude.PyNum Model.GetNBest Model.Quota.
 Import ListNotations.
@@ -31,25 +36,21 @@ Section QD.
   Definition fulfills (v q : Q) : bool :=
     negb (Qle_bool v q) || (accept_equal && Qeq_bool v q).
 
-  (* the for-loop over votes: (selected, n_overshot, overshot_candidates) *)
-  Fixpoint scan (votes : list (C * Q)) (q : Q) (n : Z) (prev caps : list (C * Z))
-           (acc : list (C * Z) * Z * list C) : list (C * Z) * Z * list C :=
+  (* the for-loop over votes: selected.  n_add_seats = min(int(Fraction(n_votes, quota_val)), max_seats.get(candidate, INF)) - n_prev *)
+  Definition cap_whole (caps : list (C * Z)) (c : C) (w : Z) : Z :=
+    match dget caps c with Some m => Z.min w m | None => w end.
+
+  Fixpoint scan (votes : list (C * Q)) (q : Q) (prev caps : list (C * Z)) (sel : list (C * Z)) : list (C * Z) :=
     match votes with
-    | [] => acc
+    | [] => sel
     | (c, v) :: t =>
-        let '(sel, nov, ovc) := acc in
         let n_prev := dget_or prev c 0 in
-        let acc' :=
+        let sel' :=
           if fulfills v q then
-            let add := py_trunc (v / q)%Q - n_prev in
-            if 0 <? add then
-              let cmax := dget_or caps c n in
-              if cmax <? add + n_prev
-              then (dset sel c (add - (add + n_prev)), nov + (add + n_prev), ovc ++ [c])
-              else (dset sel c add, nov, ovc)
-            else acc
-          else acc in
-        scan t q n prev caps acc'
+            let add := cap_whole caps c (py_trunc (v / q)%Q) - n_prev in
+            if 0 <? add then dset sel c add else sel
+          else sel in
+        scan t q prev caps sel'
     end.
 
   Definition add_dict (d1 d2 : list (C * Z)) : list (C * Z) :=
@@ -139,41 +140,19 @@ Section QD.
         end
     end.
 
-  Fixpoint qd_eval (fuel : nat) (votes : list (C * Q)) (n : Z) (prev caps : list (C * Z)) : qd_result :=
-    match fuel with
-    | O => QD_fuel
-    | S f =>
-        let q := quota (qsumv votes) n in
-        (* Fraction(n_votes, quota_val) raises ZeroDivisionError when reached with q = 0 *)
-        if Qeq_bool q 0 && existsb (fun cv => fulfills (snd cv) q) votes then QD_zerodiv else
-        let '(sel, nov, ovc) := scan votes q n prev caps ([], 0, []) in
-        let inner :=
-          if nov =? 0 then Some (QD_ok [])
-          else
-            let remaining := filter (fun cv => negb (cmem (fst cv) ovc)) votes in
-            let gained := map (fun cv => (fst cv, dget_or sel (fst cv) 0 + dget_or prev (fst cv) 0)) votes in
-            Some (qd_eval f remaining nov gained caps) in
-        match inner with
-        | Some (QD_ok extra) =>
-            (* extra may only hold plain keys unless the inner call produced a tie key *)
-            if existsb (fun kv => match fst kv with KT _ => true | _ => false end) extra then QD_unmodelled else
-            let extra_c := flat_map (fun kv => match fst kv with K c => [(c, snd kv)] | _ => [] end) extra in
-            let sel2 := add_dict sel extra_c in
-            let total := zsumv sel2 + zsumv prev in
-            if n <? total then
-              match pol with
-              | PIgnore => QD_ok (map (fun kv => (K (fst kv), snd kv)) sel2)
-              | PError => QD_vse
-              | PSubtract => subtract (Z.to_nat (total - n)) votes q prev sel2 (total - n)
-              end
-            else QD_ok (map (fun kv => (K (fst kv), snd kv)) sel2)
-        | Some r => r
-        | None => QD_fuel
-        end
-    end.
-
   Definition qd_evaluate (votes : list (C * Q)) (n : Z) (prev caps : list (C * Z)) : qd_result :=
-    qd_eval (S (length votes)) votes n prev caps.
+    let q := quota (qsumv votes) n in
+    (* Fraction(n_votes, quota_val) raises ZeroDivisionError when reached with q = 0 *)
+    if Qeq_bool q 0 && existsb (fun cv => fulfills (snd cv) q) votes then QD_zerodiv else
+    let sel := scan votes q prev caps [] in
+    let total := zsumv sel + zsumv prev in
+    if n <? total then
+      match pol with
+      | PIgnore => QD_ok (map (fun kv => (K (fst kv), snd kv)) sel)
+      | PError => QD_vse
+      | PSubtract => subtract (Z.to_nat (total - n)) votes q prev sel (total - n)
+      end
+    else QD_ok (map (fun kv => (K (fst kv), snd kv)) sel).
 
   (* ------------------------------------------------------------ LargestRemainder *)
   Inductive lr_result :=
@@ -188,7 +167,7 @@ Section QD.
     end.
 
   Definition lr_evaluate (votes : list (C * Q)) (n : Z) (prev caps : list (C * Z)) : lr_result :=
-    match qd_evaluate votes n prev [] with
+    match qd_evaluate votes n prev caps with
     | QD_ok qe =>
         if existsb (fun kv => match fst kv with KT _ => true | _ => false end) qe then LR_err QD_unmodelled else
         let q := quota (qsumv votes) n in
@@ -209,6 +188,90 @@ Section QD.
           LR_ok (fold_left (fun d r => match r with Cand c => kincr d (K c) | TieR l => kincr d (KT l) end) best qe)
     | r => LR_err r
     end.
+
+  (* ---- the pinned tree: the for-loop over votes: (selected, n_overshot, overshot_candidates) *)
+  Fixpoint scan_pinned (votes : list (C * Q)) (q : Q) (n : Z) (prev caps : list (C * Z))
+           (acc : list (C * Z) * Z * list C) : list (C * Z) * Z * list C :=
+    match votes with
+    | [] => acc
+    | (c, v) :: t =>
+        let '(sel, nov, ovc) := acc in
+        let n_prev := dget_or prev c 0 in
+        let acc' :=
+          if fulfills v q then
+            let add := py_trunc (v / q)%Q - n_prev in
+            if 0 <? add then
+              let cmax := dget_or caps c n in
+              if cmax <? add + n_prev
+              then (dset sel c (add - (add + n_prev)), nov + (add + n_prev), ovc ++ [c])
+              else (dset sel c add, nov, ovc)
+            else acc
+          else acc in
+        scan_pinned t q n prev caps acc'
+    end.
+
+  Fixpoint qd_eval_pinned (fuel : nat) (votes : list (C * Q)) (n : Z) (prev caps : list (C * Z)) : qd_result :=
+    match fuel with
+    | O => QD_fuel
+    | S f =>
+        let q := quota (qsumv votes) n in
+        (* Fraction(n_votes, quota_val) raises ZeroDivisionError when reached with q = 0 *)
+        if Qeq_bool q 0 && existsb (fun cv => fulfills (snd cv) q) votes then QD_zerodiv else
+        let '(sel, nov, ovc) := scan_pinned votes q n prev caps ([], 0, []) in
+        let inner :=
+          if nov =? 0 then Some (QD_ok [])
+          else
+            let remaining := filter (fun cv => negb (cmem (fst cv) ovc)) votes in
+            let gained := map (fun cv => (fst cv, dget_or sel (fst cv) 0 + dget_or prev (fst cv) 0)) votes in
+            Some (qd_eval_pinned f remaining nov gained caps) in
+        match inner with
+        | Some (QD_ok extra) =>
+            (* extra may only hold plain keys unless the inner call produced a tie key *)
+            if existsb (fun kv => match fst kv with KT _ => true | _ => false end) extra then QD_unmodelled else
+            let extra_c := flat_map (fun kv => match fst kv with K c => [(c, snd kv)] | _ => [] end) extra in
+            let sel2 := add_dict sel extra_c in
+            let total := zsumv sel2 + zsumv prev in
+            if n <? total then
+              match pol with
+              | PIgnore => QD_ok (map (fun kv => (K (fst kv), snd kv)) sel2)
+              | PError => QD_vse
+              | PSubtract => subtract (Z.to_nat (total - n)) votes q prev sel2 (total - n)
+              end
+            else QD_ok (map (fun kv => (K (fst kv), snd kv)) sel2)
+        | Some r => r
+        | None => QD_fuel
+        end
+    end.
+
+  Definition qd_evaluate_pinned (votes : list (C * Q)) (n : Z) (prev caps : list (C * Z)) : qd_result :=
+    qd_eval_pinned (S (length votes)) votes n prev caps.
+
+  Definition lr_evaluate_pinned (votes : list (C * Q)) (n : Z) (prev caps : list (C * Z)) : lr_result :=
+    match qd_evaluate_pinned votes n prev [] with
+    | QD_ok qe =>
+        if existsb (fun kv => match fst kv with KT _ => true | _ => false end) qe then LR_err QD_unmodelled else
+        let q := quota (qsumv votes) n in
+        let qe_c := flat_map (fun kv => match fst kv with K c => [(c, snd kv)] | _ => [] end) qe in
+        let gained := add_dict qe_c prev in
+        let nrem := n - zsumv gained in
+        if Qeq_bool q 0 then LR_err QD_zerodiv else
+        let rems := flat_map (fun cv : C * Q =>
+                      let (c, v) := cv in
+                      match dget caps c with
+                      | Some m => if dget_or gained c 0 <? m then [(c, (v / q - inject_Z (dget_or gained c 0%Z))%Q)] else []
+                      | None => [(c, (v / q - inject_Z (dget_or gained c 0%Z))%Q)]
+                      end) votes in
+        (* n_for_remainder = max(.., 0) ; get_n_best(_, 0) returns [] on every input *)
+        if nrem <=? 0 then LR_ok qe
+        else
+          let best := get_n_best Qle_bool rems (Z.to_nat nrem) in
+          LR_ok (fold_left (fun d r => match r with Cand c => kincr d (K c) | TieR l => kincr d (KT l) end) best qe)
+    | r => LR_err r
+    end.
+
+  (* false = the code as written on the pinned tree, true = with fixes/C02-capbranch.diff and fixes/C02-lr-caps.diff *)
+  Definition qd_evaluate_at (fixed : bool) := if fixed then qd_evaluate else qd_evaluate_pinned.
+  Definition lr_evaluate_at (fixed : bool) := if fixed then lr_evaluate else lr_evaluate_pinned.
 End QD.
 
 (* ---------------------------------------------------------------- QuotaSelector (approval.py L215-238) *)
